@@ -2,6 +2,7 @@ import Ts.Model
 import Ts.Resolve
 import Ts.Cycle
 import Ts.Order
+import Ts.Refine
 namespace TsDrv
 open Ts
 
@@ -20,6 +21,9 @@ partial def loop (h : IO.FS.Stream) (g : G) : IO Unit := do
     | some (L, ok) => IO.println s!"{ok} {L}"
     | none => IO.println "panic"
     loop h g     -- the harness sorts a copy
+  | ["wf"] =>
+    -- the premises of `Ts.G.toposort_sound/complete/cyclic`, evaluated on a build the probe declares well formed
+    IO.println s!"{wfCheck g}"; loop h g
   | ["cycle", seed, ans] =>
     -- ans: the list FindCycle returned (observed choice), validated against the specification
     let l := if ans = "-" then [] else (ans.splitOn ",").filterMap (·.toNat?)
